@@ -34,6 +34,20 @@ class GP:
     def __repr__(self):
         return '<GP %s>' % self.path
 
+    # folder-like: the object can also be read as a mapping of its own
+    # attributes (dtml-with without 'mapping' must still treat it as an
+    # object and go through the guard)
+    def keys(self):
+        return [k for k in self.__dict__ if k not in ('role', 'idx', 'path')]
+
+    def __getitem__(self, name):
+        if not isinstance(name, str):
+            raise KeyError(name)
+        try:
+            return self.__dict__[name]
+        except KeyError:
+            raise KeyError(name)
+
 
 class GMeth:
     """Zero-argument method with a stable repr."""
@@ -300,6 +314,11 @@ def block(draw, scope, depth):
         if draw(st.integers(0, 4)) == 0:
             opts += ' no_push_item'
             push = scope['pushed']
+        if 'skip_unauthorized' in opts and draw(st.booleans()):
+            # read the item through the item variables
+            sc0 = _sub(scope, pushed=push, in_item=True, refs=[])
+            return '<dtml-in "%s"%s>%s;<dtml-else>none</dtml-in>' % (
+                sq, opts, draw(leaf(sc0)))
         if draw(st.integers(0, 4)) == 0:
             opts += ' prefix=it'
         sc = _sub(scope, pushed=push, in_item=True)
